@@ -606,6 +606,26 @@ impl Node {
         go(self, &mut i)
     }
     /// Maximum nesting depth.
+    /// The same item with every head written in its shortest form (integers, lengths, tags), definite lengths instead of
+    /// indefinite ones and strings in one chunk; order and content are kept.
+    pub fn minimal(&self) -> Node {
+        let one = |st: &Str| {
+            let d = st.data();
+            Str::Def(W::min_for(d.len() as u64), d)
+        };
+        let k = match &self.k {
+            Kind::UInt(v, _) => Kind::UInt(*v, W::min_for(*v)),
+            Kind::NInt(v, _) => Kind::NInt(*v, W::min_for(*v)),
+            Kind::Bytes(st) => Kind::Bytes(one(st)),
+            Kind::Text(st) => Kind::Text(one(st)),
+            Kind::Array(v, _) => Kind::Array(v.iter().map(|n| n.minimal()).collect(), Len::Def(W::min_for(v.len() as u64))),
+            Kind::Map(v, _) => Kind::Map(v.iter().map(|(a, b)| (a.minimal(), b.minimal())).collect(), Len::Def(W::min_for(v.len() as u64))),
+            Kind::Tag(t, _, inner) => Kind::Tag(*t, W::min_for(*t), Box::new(inner.minimal())),
+            other => other.clone(),
+        };
+        Node { k, s: 0, e: 0 }
+    }
+
     pub fn depth(&self) -> usize {
         1 + match &self.k {
             Kind::Array(v, _) => v.iter().map(|c| c.depth()).max().unwrap_or(0),
